@@ -95,6 +95,19 @@ def runSpec (maxCalls : Nat) (query : List Term) (rules : List Rule) : String :=
     | _ => "BUILD-PANIC"
   | _ => "BUILD-PANIC"
 
+mutual
+partial def goalHasCut : Goal → Bool
+  | .bip name _ => name == "!"
+  | .and gs | .or gs | .not gs | .time gs => gs.toList.any goalHasCut
+  | _ => false
+end
+mutual
+partial def cutUnderNot : Goal → Bool
+  | .not gs | .time gs => gs.toList.any goalHasCut
+  | .and gs | .or gs => gs.toList.any cutUnderNot
+  | _ => false
+end
+
 def handleEngine (toks : List String) : String :=
   match toks with
   | mc :: ex :: "Q" :: nq :: rest =>
@@ -105,7 +118,10 @@ def handleEngine (toks : List String) : String :=
         match nr.toNat? with
         | some m =>
           match decRules m rest2 with
-          | some (rules, _) => runEngine maxCalls extra query rules ++ "\nSPEC " ++ runSpec maxCalls query rules
+          | some (rules, _) =>
+            -- the reference machine does not define a cut under not / time (the property excludes it)
+            if rules.any (fun r => cutUnderNot r.body) then runEngine maxCalls extra query rules
+            else runEngine maxCalls extra query rules ++ "\nSPEC " ++ runSpec maxCalls query rules
           | none => "decode-error rules"
         | none => "decode-error"
       | _ => "decode-error query"
